@@ -69,6 +69,14 @@ def jobs_for(tier, rng):
         if kind == "PVI":
             job.update({"period": 2, "clear": False})
         jobs.append(job)
+    # episodic MDPs: the stopping sweep has a measure of exactly zero, and the greedy policy of the values held after
+    # the first call differs from the final one (the policy returned by the last call must be extracted afresh)
+    for k in range(6 if tier == "quick" else 40):
+        kind = ["VI", "SAVI", "VI"][k % 3]
+        m = gen.dag(rng)
+        jobs.append({"mdp": m, "kind": kind, "gamma": rng.choice([[1, 2], [3, 4], [1, 1]]) if kind == "VI" else [1, 2],
+                     "eps": [1, 6], "test": rng.choice(["span", "max_diff"]), "calls": rng.choice([[1, 30], [2, 30], [1, 1, 30]]),
+                     "mbs": rng.choice([3, 1024]), "shuffle": False, "tag": f"dag-{kind}{k}", "min_sweeps": 3})
     # many solve() calls on one solver
     for k, kind in enumerate(["VI", "SAVI", "RVI", "PVI"]):
         m = gen.unichain(rng, v0max=1, PD=2) if kind == "RVI" else gen.ring(rng, 3, extra=2, v0max=1)
